@@ -26,6 +26,21 @@ def check(rep, model, tier):
     else:
         rep.violation('SCHEMA', 'only-False-stored-into-the-argument', site, expected='every store writes the constant False into the input array',
                       found=f'values {sorted(map(T.show, vals))}, bases {sorted({T.brief(a[1], 40) for a in stores})}')
+    # totality: with an array argument the only way out other than the filtered array is the documented range check of the threshold
+    rep.rule('RAISES', 'with an ndarray argument the function raises only through the documented range check min_n_cycles in [0, inf] (possibly behind the empty-input '
+                       'shortcut): no other condition - a type test of the threshold, a bound taken from the data - turns a valid (array, threshold) pair into an exception')
+    bad_ = T.or_([T.cmp_('Lt', mm, T.C(0)), T.cmp_('Gt', mm, T.PINF)])
+
+    def documented(cond):
+        cj = list(cond[1]) if cond[0] == 'and' else [cond]
+        rest = [c for c in cj if c != bad_]
+        return len(rest) < len(cj) and all(_len_test(c, q) for c in rest)
+    other = [r for r in ctx.raises if not (r[0] == 'ValueError' and documented(r[1]))]
+    if other:
+        rep.violation('RAISES', 'ndarray argument', site, expected=f'only ValueError when {T.show(bad_)}',
+                      found='; '.join(f'{r[0]} when {T.brief(r[1], 100)}' for r in other[:3]))
+    else:
+        rep.ok('RAISES', 'ndarray argument', site, found=f'{len(ctx.raises)} raise(s), all the documented range check')
     # type guard: with a list argument the function must raise ValueError and return nothing
     res2, ctx2 = E.run(model, 'check_min_burst_cycles', {fn.params[0]: ('list', (T.TRUE, T.FALSE))})
     if res2 is None and any(r[0] == 'ValueError' and r[1] == T.TRUE for r in ctx2.raises):
@@ -33,6 +48,13 @@ def check(rep, model, tier):
     else:
         rep.violation('TYPE-GUARD', 'list argument', site, expected='unconditional ValueError', found=f'result {T.brief(res2) if res2 else None}, raises {[(r[0], T.brief(r[1], 40)) for r in ctx2.raises]}')
     rep.floor('schema obligations', len(rep.instances), 3)
+
+
+def _len_test(c, q):
+    """a test of the array's length against zero (the empty-input shortcut), in either polarity"""
+    if c[0] == 'not':
+        return _len_test(c[1], q)
+    return c[0] == 'cmp' and c[1] in ('Eq', 'NotEq') and {c[2], c[3]} == {T.C(0), T.length(q)}
 
 
 def _doc_defaults(rep, model):
